@@ -1636,15 +1636,14 @@ pub fn gen_epoch(rng: &mut Rng) -> EpochCfg {
     }
 }
 
-/// set member / hash field / sorted-set member that is not valid UTF-8: the containers store it in
-/// lossy form (known findings `C01:*-not-binary-safe`, reported on the single commands); scripts
-/// stay clear of that cause
+/// sorted-set member that is not valid UTF-8: the container stores it in lossy form (known finding
+/// `C01:zset-member-not-binary-safe`, reported on the single commands); scripts stay clear of that cause.
+/// Set members and hash fields are binary safe since the fixes c9e4f2c / 8832ec4.
 pub fn has_binary_name(cmd: &Command) -> bool {
     let bad = |x: &SDS| std::str::from_utf8(x.as_bytes()).is_err();
     match cmd {
-        Command::SAdd(_, ms) | Command::SRem(_, ms) | Command::ZRem(_, ms) | Command::HDel(_, ms) => ms.iter().any(bad),
-        Command::SIsMember(_, m) | Command::HGet(_, m) | Command::HExists(_, m) | Command::ZScore(_, m) | Command::ZRank(_, m) | Command::HIncrBy(_, m, _) => bad(m),
-        Command::HSet(_, fvs) => fvs.iter().any(|(f, _)| bad(f)),
+        Command::ZRem(_, ms) => ms.iter().any(bad),
+        Command::ZScore(_, m) | Command::ZRank(_, m) => bad(m),
         Command::ZAdd { pairs, .. } => pairs.iter().any(|(_, m)| bad(m)),
         _ => false,
     }
@@ -1663,14 +1662,6 @@ pub fn cause_variant(cmd: &Command, ro: bool) -> Option<(String, &'static str, b
         // lossy names is what the code does
         let l = |v: &Vec<SDS>| v.iter().map(lossy).collect::<Vec<_>>();
         let (lc, sig) = match cmd {
-            Command::SAdd(k, ms) => (Command::SAdd(k.clone(), l(ms)), "C01:set-member-not-binary-safe"),
-            Command::SRem(k, ms) => (Command::SRem(k.clone(), l(ms)), "C01:set-member-not-binary-safe"),
-            Command::SIsMember(k, m) => (Command::SIsMember(k.clone(), lossy(m)), "C01:set-member-not-binary-safe"),
-            Command::HSet(k, fvs) => (Command::HSet(k.clone(), fvs.iter().map(|(f, v)| (lossy(f), v.clone())).collect()), "C01:hash-field-not-binary-safe"),
-            Command::HDel(k, fs) => (Command::HDel(k.clone(), l(fs)), "C01:hash-field-not-binary-safe"),
-            Command::HGet(k, f) => (Command::HGet(k.clone(), lossy(f)), "C01:hash-field-not-binary-safe"),
-            Command::HExists(k, f) => (Command::HExists(k.clone(), lossy(f)), "C01:hash-field-not-binary-safe"),
-            Command::HIncrBy(k, f, d) => (Command::HIncrBy(k.clone(), lossy(f), *d), "C01:hash-field-not-binary-safe"),
             Command::ZAdd { key, pairs, nx, xx, gt, lt, ch } => (
                 Command::ZAdd { key: key.clone(), pairs: pairs.iter().map(|(s, m)| (*s, lossy(m))).collect(), nx: *nx, xx: *xx, gt: *gt, lt: *lt, ch: *ch },
                 "C01:zset-member-not-binary-safe",
@@ -1848,7 +1839,7 @@ pub fn audit_c01() -> serde_json::Value {
     json!([
       {"class": 1, "topic": "entry paths / variants never driven",
        "covered": "every Command variant: exhaustive match (a new variant breaks the harness build) + variant list scanned from command.rs by build.rs; pub fns of impl CommandExecutor scanned from executor/mod.rs and mapped to how they are driven (C01:coverage:executor-fn-not-driven:<fn>): get_direct / set_direct / execute_read / evict_expired_direct are driven inside the random sequences and compared with the model; pub fns of src/redis/data/*.rs scanned and mapped (C01:coverage:data-fn-not-driven:<file>::<fn>): the real RedisSortedSet / RedisList / SDS (and RedisSet / RedisHash against references) are driven directly; straight-line EVAL scripts (SCRIPT ops, Redis.stepScript); SETBIT / GETBIT / BatchSet / BatchGet / KEYS <glob> are now in the model (Model.RedisX)",
-       "open": "with_shared_script_cache / set_shared_script_cache (C16); SkipList::remove / get_by_rank / is_empty have no caller and the module is private: unreachable; INCRBYFLOAT (floats), SCAN family (cursor paging over hash order), OBJECT/DEBUG/CLIENT/CONFIG/ACL stubs stay oracle-only (C17 sweep)"},
+       "open": "with_shared_script_cache / set_shared_script_cache (C16); SkipList::remove / get_by_rank / is_empty have no caller and the module is private: unreachable; INCRBYFLOAT (floats), HSCAN / ZSCAN (SCAN itself is transcribed: Model.ExecutorScan, XSCAN lines + full-iteration oracle), OBJECT/DEBUG/CLIENT/CONFIG/ACL stubs stay oracle-only (C17 sweep)"},
       {"class": 2, "topic": "input alphabet",
        "covered": "binary / empty / numeric-looking payloads; values of 22 / 23 / 24 / 100 / 4096 bytes; binary set members, hash fields, zset members; glob patterns from fixed shapes and random strings over a b c k é * ? [ ] ^ - backslash",
        "open": "keys are valid UTF-8 (Command carries String; non-UTF-8 keys are C03 / C04 / C16); the empty key is not generated (KEYS ** differs from Redis on it only)"},
@@ -1868,7 +1859,10 @@ pub fn audit_c01() -> serde_json::Value {
       {"class": 8, "topic": "node-global state", "covered": "per-set rng_state compared after every step", "open": "math.randomseed(current_time) is C20; commands_processed feeds INFO only"},
       {"class": 9, "topic": "observations",
        "covered": "reply + keys / types / values / PTTL after every step; a sorted set's member map, skip list, length field and is_sorted() must describe the same set; the whole skip-list structure (heights, spans, header spans, level, length, rng_state) in the data driver",
-       "open": "expirations entries of invisible keys are not reachable through a public API"},
+       "open": "the exact deadline of a key that is past it (only `dead` is observable)"},
+      {"class": 9, "topic": "observations (session 4: internal state)",
+       "covered": "XC / XX / XS / XSCAN lines: the transcription of the executor as it is (Model.Executor*: two maps, lazy expiry) runs every command from ITS OWN threaded state and must give the implementation's reply, the PHYSICAL content of `data` (every key, live or `dead`, with PTTL and value) and `expirations.len()` (INFO keys_with_expiration): an orphan deadline, a key that active eviction left behind, a lazy drop that did not happen are disagreements at the very command",
+       "open": ""},
       {"class": 10, "topic": "finding signatures",
        "covered": "every C01 known finding is identified by cause: the model of the code as it is (Model.ExecutorCode CODE lines; the specification on the lossy form of binary names) answers first and must predict the very reply and keyspace (must_agree), else <signature>:outcome-differs-from-model; the GETSET rule no longer accepts missing-in-impl; the glob rule only covers patterns with [ or backslash",
        "open": ""},
